@@ -100,19 +100,9 @@ pub fn dispatch(op: &str, args: &[&str]) -> Option<Res> {
                 }
                 _ => return Err(format!("bad-op fold type {}", ty)),
             }
-            // integers and rationals: the common value is printed (the model computes it); floats: agreement only
-            let valued = matches!(ty, "u" | "i");
-            let first = out[0].1.clone();
-            let n = out.len();
-            match verdict(out) {
-                Ok(_) if valued => match first.strip_prefix("ok ") {
-                    Some(v) => Ok(format!("{} #n={}", v, n)),
-                    None => Err(format!("{} #n={}", first, n)),
-                },
-                Ok(s) => Ok(s),
-                Err(e) if valued && !e.starts_with("forms-disagree") => Err(e),
-                Err(e) => Err(e),
-            }
+            // the common value is printed (the Lean driver computes it: integers at the Int specification, floats by the
+            // mirrored operator model)
+            verdict_value(out)
         })()),
         _ => None,
     }
